@@ -212,3 +212,86 @@ Print Assumptions C05_evolve_split_2d.
 Print Assumptions C05_evolve_split_parity.
 Print Assumptions C05_evolve_block_split.
 Print Assumptions C05_evolve2d_block_split.
+
+(* ================================================================== every memoize mode (pure rules)
+   The memoised engines are Model/Memo1D.v and Model/Memo2D.v (C03, C04).  For a pure rule every mode
+   returns the array of the plain engine (C03/C04 transparency), and the model of a call starts with
+   an empty cache, as `memo_table = {}` / `_MemoizationCache()` at the top of every call: so the
+   second call of a split is an ordinary call and the plain split law carries over.
+   1D: `memo` is the value of the memoize option and `dispatch memo = Some m` says it selects a mode
+   (False, True, "recursive"); `pure1 f` is a rule without state that ignores c and t; `arr_of`
+   projects the returned array.  2D: `m` is the mode, `pure_rule2 f` likewise, `arr2_of` projects the
+   array; memoize=True additionally needs f not to read masked cells (its cache key fills them in). *)
+From CPL Require Import Model.Memo1D Model.Memo2D Proofs.C0506MemoProofs.
+Local Close Scope Z_scope.
+
+Theorem C05_all_modes_extends_1d :
+  forall (f : list Z -> Z) (store : Z -> Z) (r : nat) (memo : PyVal) (m : mode) (hist : list (list Z)) (T : nat) out,
+  dispatch memo = Some m ->
+  1 <= r <= length (last hist []) ->
+  arr_of (evolve1d_fixed (pure1 f) store memo r tt hist T) = Ok out ->
+  exists rows, out = hist ++ rows /\ length rows = T - 1 /\ firstn (length hist) out = hist /\
+    Forall (fun row => length row = length (last hist [])) rows /\
+    (forall hist', last hist' [] = last hist [] ->
+       arr_of (evolve1d_fixed (pure1 f) store memo r tt hist' T) = Ok (hist' ++ rows)).
+Proof. intros f store r memo m hist T out. exact (memo1d_extends f store r memo m hist T out). Qed.
+
+Theorem C05_all_modes_split_1d :
+  forall (f : list Z -> Z) (store : Z -> Z) (r : nat) (memo : PyVal) (m : mode) (hist : list (list Z)) T1 T2 out1 out2,
+  dispatch memo = Some m ->
+  1 <= r <= length (last hist []) -> 1 <= T1 -> 1 <= T2 ->
+  arr_of (evolve1d_fixed (pure1 f) store memo r tt hist T1) = Ok out1 ->
+  arr_of (evolve1d_fixed (pure1 f) store memo r tt out1 T2) = Ok out2 ->
+  arr_of (evolve1d_fixed (pure1 f) store memo r tt hist (T1 + T2 - 1)) = Ok out2.
+Proof. intros f store r memo m hist T1 T2 out1 out2. exact (memo1d_split f store r memo m hist T1 T2 out1 out2). Qed.
+
+Theorem C05_all_modes_extends_2d :
+  forall (f : nbhd2 -> Z) (store : Z -> Z) (r : nat) (ty : nbhd_type) (R C : nat),
+  1 <= R -> 1 <= C -> r <= Nat.min R C ->
+  forall (m : mode) (hist : list grid) (T : nat) out,
+  (m = Memo -> forall n n', nb_mask n = nb_mask n' -> unmasked n = unmasked n' -> f n = f n') ->
+  length (last hist []) = R /\ Forall (fun row => length row = C) (last hist []) ->
+  arr2_of (evolve2d_mode_fixed (pure_rule2 f) store m r ty tt hist T) = Ok out ->
+  exists rows, out = hist ++ rows /\ length rows = T - 1 /\ firstn (length hist) out = hist /\
+    Forall (fun g => length g = R /\ Forall (fun row => length row = C) g) rows /\
+    (forall hist', last hist' [] = last hist [] ->
+       arr2_of (evolve2d_mode_fixed (pure_rule2 f) store m r ty tt hist' T) = Ok (hist' ++ rows)).
+Proof. exact memo2d_extends. Qed.
+
+Theorem C05_all_modes_split_2d :
+  forall (f : nbhd2 -> Z) (store : Z -> Z) (r : nat) (ty : nbhd_type) (R C : nat),
+  1 <= R -> 1 <= C -> r <= Nat.min R C ->
+  forall (m : mode) (hist : list grid) T1 T2 out1 out2,
+  (m = Memo -> forall n n', nb_mask n = nb_mask n' -> unmasked n = unmasked n' -> f n = f n') ->
+  length (last hist []) = R /\ Forall (fun row => length row = C) (last hist []) ->
+  1 <= T1 -> 1 <= T2 ->
+  arr2_of (evolve2d_mode_fixed (pure_rule2 f) store m r ty tt hist T1) = Ok out1 ->
+  arr2_of (evolve2d_mode_fixed (pure_rule2 f) store m r ty tt out1 T2) = Ok out2 ->
+  arr2_of (evolve2d_mode_fixed (pure_rule2 f) store m r ty tt hist (T1 + T2 - 1)) = Ok out2.
+Proof. exact memo2d_split. Qed.
+
+(* non-vacuity: rule 150 on a ring of 6, the recursive engine, T1 = 3 then T2 = 2 equals T = 4; and a
+   3 x 4 grid under memoize=True *)
+Example C05_nonvacuous_all_modes :
+  let f := fun n : list Z => (lin_dot [1; 1; 1] n mod 2)%Z in
+  let h := [[0; 0; 1; 0; 0; 0]]%Z in
+  dispatch (PStr StrLit.recursive_lit) = Some Recursive /\
+  arr_of (evolve1d_fixed (pure1 f) store_id (PStr StrLit.recursive_lit) 1 tt h 3)
+  = Ok [[0; 0; 1; 0; 0; 0]; [0; 1; 1; 1; 0; 0]; [1; 0; 1; 0; 1; 0]]%Z /\
+  arr_of (evolve1d_fixed (pure1 f) store_id (PStr StrLit.recursive_lit) 1 tt
+            [[0; 0; 1; 0; 0; 0]; [0; 1; 1; 1; 0; 0]; [1; 0; 1; 0; 1; 0]]%Z 2)
+  = arr_of (evolve1d_fixed (pure1 f) store_id (PStr StrLit.recursive_lit) 1 tt h 4) /\
+  arr_of (evolve1d_fixed (pure1 f) store_id (PStr StrLit.recursive_lit) 1 tt h 4)
+  = Ok [[0; 0; 1; 0; 0; 0]; [0; 1; 1; 1; 0; 0]; [1; 0; 1; 0; 1; 0]; [1; 0; 1; 0; 1; 0]]%Z /\
+  let g := [[0; 1; 0; 1]; [1; 0; 1; 0]; [0; 1; 0; 1]]%Z in
+  let f2 := fun n : nbhd2 => (lin_dot [1; 1; 1; 1; 1; 1; 1; 1; 1] (unmasked n) mod 2)%Z in
+  (exists a b, arr2_of (evolve2d_mode_fixed (pure_rule2 f2) store_id Memo 1 Moore tt [g] 3) = Ok [g; a; b] /\ a <> g).
+Proof.
+  cbv zeta. split; [vm_compute; reflexivity|]. split; [vm_compute; reflexivity|]. split; [vm_compute; reflexivity|].
+  split; [vm_compute; reflexivity|]. do 2 eexists. split; [vm_compute; reflexivity|discriminate].
+Qed.
+
+Print Assumptions C05_all_modes_extends_1d.
+Print Assumptions C05_all_modes_split_1d.
+Print Assumptions C05_all_modes_extends_2d.
+Print Assumptions C05_all_modes_split_2d.
